@@ -5,7 +5,7 @@ use std::sync::OnceLock;
 use vcore::proptest::prelude::*;
 use vcore::{Cx, Level, Res};
 
-const RULE: &str = "cases are (a) the COMPLETE product of event classes — kind {absent, typed span, typed metric, text span, text metric, unknown text, upper-case SPAN, mixed-case Metric, padded ' metric ', integer, bool} x extent {none, point, range, empty range} x metric value {int, float, int seq, float seq, mixed numeric seq, empty seq, nested seq, seq with a text element, text, numeric-looking text, bool, missing, u64 above i64::MAX; sequences captured through sval and through serde} x aggregation {absent, sum, count, last, min, max} x all 8 subsets of configured signals x wire {HTTP/protobuf, HTTP/JSON, both with gzip, gRPC, gRPC with gzip}, each class one case served by a real emit_otlp emitter per (subset, wire) talking to the scripted collector, (a2) the COMPLETE product kind {typed span, typed metric, 'span', 'metric', ' SPAN ', 'Metric', 'spam'} x representation of the kind value {live emit::Kind / &str, owned String, Value::from_display, Display-only newtype, format_args} x buffering of the props on the way to the emitter {none, Value::to_owned, Value::to_shared, owned copy replayed on another thread} x extent {point, range} x value {int, float seq, text, missing} x aggregation {absent, sum} x 8 subsets x 3 wires, (c) concurrent discards: a configuration without logs, 2-8 threads released by a barrier, each emitting up to 60 k events no configured signal can take (tight loop over one prebuilt event) plus a few exportable ones; after the threads joined event_discarded must equal the reference's count exactly, and (b) random streams of 1-6 events with random payloads (other integer/float widths, NaN/inf, null, random kind texts and case/padding variants, extra properties, kind property first or last) over random per-signal wire mixes. Non-trivial = the event carries (or may carry) a span/metric kind but that kind's signal is not configured or the event fails the kind's qualification (metric without a numeric/numeric-sequence value, span without a range extent).";
+const RULE: &str = "cases are (a) the COMPLETE product of event classes — kind {absent, typed span, typed metric, text span, text metric, unknown text, upper-case SPAN, mixed-case Metric, padded ' metric ', integer, bool} x extent {none, point, range, empty range} x metric value {int, float, int seq, float seq, mixed numeric seq, empty seq, nested seq, seq with a text element, text, numeric-looking text, bool, missing, u64 above i64::MAX; sequences captured through sval and through serde} x aggregation {absent, sum, count, last, min, max} x all 8 subsets of configured signals x wire {HTTP/protobuf, HTTP/JSON, both with gzip, gRPC, gRPC with gzip}, each class one case served by a real emit_otlp emitter per (subset, wire) talking to the scripted collector, (a2) the COMPLETE product kind {typed span, typed metric, 'span', 'metric', ' SPAN ', 'Metric', 'spam'} x representation of the kind value {live emit::Kind / &str, owned String, Value::from_display, Display-only newtype, format_args} x buffering of the props on the way to the emitter {none, Value::to_owned, Value::to_shared, owned copy replayed on another thread} x extent {point, range} x value {int, float seq, text, missing} x aggregation {absent, sum} x 8 subsets x 3 wires, (c) concurrent discards: a configuration without logs, 2-8 threads released by a barrier, each emitting up to 60 k events no configured signal can take (tight loop over one prebuilt event) plus a few exportable ones; after the threads joined event_discarded must equal the reference's count exactly, (d) saturated signal: logs healthy, the metrics (or traces) endpoint holding every request, 10 000 + k qualifying samples (spans) emitted, then a few genuine log events: the logs endpoint receives exactly those, and (b) random streams of 1-6 events with random payloads (other integer/float widths, NaN/inf, null, random kind texts and case/padding variants, extra properties, kind property first or last) over random per-signal wire mixes. Non-trivial = the event carries (or may carry) a span/metric kind but that kind's signal is not configured or the event fails the kind's qualification (metric without a numeric/numeric-sequence value, span without a range extent).";
 
 // ---------------------------------------------------------------------------------------------
 // (a) complete class product
@@ -467,6 +467,25 @@ fn main() {
             s.enumerate("kind-representation-product", repr_cases, move |c, cx| check_repr(s, c, cx));
 
             s.gen("random-streams", s.n(6000, 200_000), stream_case, |c, cx| check_stream(s, c, cx));
+
+            // a signal whose queue is full: its events are not exported through logs instead
+            s.require("saturated:metrics-queue-full-with-logs-configured", 4);
+            s.require("saturated:traces-queue-full-with-logs-configured", 4);
+            for (name, spans) in [("saturated-metrics-queue", false), ("saturated-traces-queue", true)] {
+                s.gen(
+                    name,
+                    s.n(6, 200),
+                    move || (wire(), 1u8..50, 1u8..10, any::<bool>()).prop_map(move |(wire, beyond, logs, third)| SaturatedCase { wire, spans, beyond, logs, third }),
+                    |c, cx| match check_saturated(c, cx) {
+                        Ok(Ok(())) => Ok(()),
+                        Ok(Err(p)) => {
+                            s.inconclusive(p);
+                            Ok(())
+                        }
+                        Err(f) => Err(f),
+                    },
+                );
+            }
 
             // the discard counter under concurrency: exact after the emitting threads have joined
             s.require("concurrent-discards:>=2-threads-dropping", 30);
